@@ -249,17 +249,18 @@ def main(a):
                  "(entry point, size, call text); accepted outcomes: completed, refused by argument validation before the first notification, or one of the library's own "
                  "error types (FittingError, ZHITError, DRTError, KramersKronigError, ImpedanceError subclasses) at any time; a case refused for lack of an optional "
                  "solver (tr-rbf) is counted trivial")
-    table, slow = {}, []
+    table, slow, pending = {}, [], []
     for rec in pmap_isolated(run_case, jobs):      # a fresh process per call, like the repro scripts
         res.case(rec["key"], nontrivial=not rec["trivial"], sample={"case": str(rec["key"])[:300], "outcome": rec["outcome"], "exception": rec["exc"]})
-        for fl in rec["fails"]:
-            res.fail(*fl)
+        pending += [(("num_F_ext_evaluations=-" in rec["key"][3]), fl) for fl in rec["fails"]]
         t = table.setdefault(rec["entry"], {"completed": 0, "refused-up-front": 0, "refused-by-library-error": 0, "internal-error-before-progress": 0, "aborted-after-progress": 0, "setup-failed": 0, "exceptions": {}})
         t[rec["outcome"]] += 1
         slow.append((rec["elapsed"], rec["size"], rec["key"][3]))
         if rec["exc"]:
             k = f"{rec['outcome']}:{rec['exc']}"
             t["exceptions"][k] = t["exceptions"].get(k, 0) + 1
+    for _, fl in sorted(pending, key=lambda x: x[0]):     # one example per key is kept: prefer calls without the randomised (differential
+        res.fail(*fl)                                      # evolution) extension search, whose repro would not be deterministic
     for entry, t in sorted(table.items()):
         res.part(f"outcomes:{entry}", smallest_accepted_size=nmin.get(entry), **t)
     res.part("smallest_accepted", rule="smallest n (1..12) for which the reference call completes; what the reference call does on smaller sizes is recorded only",
